@@ -253,8 +253,41 @@ class CFG:
     def facts_at(self, st: ast.AST) -> FrozenSet:
         return self.facts()[self.node_of(st).id]
 
-    def holds_at(self, st: ast.AST, goal) -> bool:
-        return norm.entails(self.facts_at(st), goal)
+    def holds_at(self, st: ast.AST, goal, depth: int = 8) -> bool:
+        """Path-sensitive: goal is entailed by the must-facts at st, or — at a join — by the facts of every incoming
+        edge (recursively, as long as the node passed does not write a term of the goal).  Keeps disjunctive
+        information that the intersection at joins loses (`if not a: assert b` establishes `a or b`)."""
+        return self._holds(self.node_of(st).id, goal, depth, frozenset())
+
+    def holds_at_exit(self, goal, depth: int = 8) -> bool:
+        return self._holds(self.exit.id, goal, depth, frozenset())
+
+    def _holds(self, i: int, goal, depth: int, seen: FrozenSet[int]) -> bool:
+        IN = self.facts()
+        if not self.reachable(i):
+            return True
+        if norm.entails(IN[i], goal):
+            return True
+        if depth <= 0 or i in seen or i == self.entry.id:
+            return False
+        seen = seen | {i}
+        preds = [(p, lab) for p, lab in self.nodes[i].pred if self.reachable(p)]
+        if not preds:
+            return False
+        for p, lab in preds:
+            if lab == "exc":
+                return False
+            w = _writes(self.nodes[p])
+            out = _kill(IN[p], w)
+            if isinstance(lab, tuple) and lab[0] == "cond":
+                out = out | frozenset(norm.atoms_true(lab[1]))
+            if norm.entails(out, goal):
+                continue
+            if _killed(goal, w):
+                return False
+            if not self._holds(p, goal, depth - 1, seen):
+                return False
+        return True
 
     # -- dominators ---------------------------------------------------------------------------------
     def _compute_dom(self, forward: bool) -> Dict[int, Set[int]]:
